@@ -148,7 +148,10 @@ class C07(netlib.Guarded, Prop):
         "acyclic relation over persisted tokens, every emitted token of a job-bound step linked, dependees on the same "
         "branch of the tag tree, and — per executed workflow, main or recovery — the exact dependee set of every token a "
         "job-bound step emitted, by tag over that workflow's own ports (loop shapes excepted).")
-    LEVEL_NOTE = ("translation validation by a proven-sound checker; completeness per step class is decided per run, not "
+    LEVEL_NOTE = ("translation validation by a proven-sound checker; the checker constrains exactly the tokens listed in "
+                  "`expected`: that list (every token a step emitted, with the tokens it was computed from) is built by the "
+                  "harness from the in-memory ports and the tags and is TRUSTED - prov_ok [] [] [] is true, a persisted token "
+                  "absent from `expected` is unconstrained; completeness per step class is decided per run, not "
                   "proved; 'persisted before' relies on SQLite allocating increasing rowids (trusted); after rollback "
                   "exactness is checked for job-bound steps only, by tag, and not for loop shapes")
     TECHNIQUE = "proven-sound checker evaluated in Coq on table dumps + Coq theorem on the write discipline"
